@@ -333,6 +333,37 @@ class Verdict:
         return 1
 
 
+def run_extension(name, tier, cov, v=None, forward=None):
+    """Run an extension module (checks/<name>.py: a specification that goes beyond the listed
+    properties, bound to the code like the others) inside a host check.  Its coverage lands in
+    cov["ext_<name>"].  What it reports is NOT a verdict on the host property: deviations are
+    recorded (and printed as EXT-NOTE lines on stderr) unless `forward(key)` says that the key is
+    a violation of the host property itself, in which case it goes to the host's Verdict.
+    An infrastructure problem of the extension is recorded, never fatal for the host."""
+    import importlib
+    t0 = time.time()
+    sub = Verdict(name.upper())
+    ext = {}
+    try:
+        mod = importlib.import_module("checks." + name.lower())
+        ext = mod.run(tier, sub) or {}
+    except Infra as e:
+        ext = {"infra_error": str(e)[:2000]}
+        log("EXT-NOTE extension=%s infra: %s" % (name, str(e)[:300]))
+    dev = []
+    for key, text, replay in sub.violations:
+        if forward and v is not None and forward(key):
+            v.violation("%s:%s" % (name.lower(), key), text, replay)
+        else:
+            dev.append({"key": key, "text": text[:600]})
+            log("EXT-NOTE extension=%s key=%s %s" % (name, key, text[:200]))
+    ext["deviations_not_verdicts"] = dev
+    ext["known_hit"] = sorted(sub.known_hit)
+    ext["wall_s"] = round(time.time() - t0, 1)
+    cov["ext_" + name.lower()] = ext
+    return ext
+
+
 def write_evidence(pid, tier, coverage, wall_s, violations, assumptions=None, level="model_checking"):
     os.makedirs(os.path.join(VERIF, "evidence"), exist_ok=True)
     ev = {"property_id": pid, "tier": tier, "seed": seed(), "level": level, "coverage": coverage,
